@@ -61,6 +61,14 @@ fn translate_block(
     _endian: Endian,
     options: &Options,
 ) -> Result<BlockTranslationResult, Error> {
+    // instruction and successor addresses are computed with plain additions:
+    // refuse a block that reaches the end of the 64-bit address space
+    if address.checked_add(bytes.len() as u64 + 16).is_none() {
+        return Err(Error::Custom(
+            "block wraps around the end of the address space".to_string(),
+        ));
+    }
+
     // A vec which holds each lifted instruction in this block.
     let mut block_graphs: Vec<(u64, ControlFlowGraph)> = Vec::new();
 
